@@ -125,7 +125,10 @@ def impl_case(args) -> dict:
         if vs is None:
             out["errors"].append(f"exit {code}: {stdout[:300]}")
         else:
-            got = sorted({os.path.relpath(os.path.join(cwd, v["file_path"]), target_abs) for v in vs})
+            def _abs(fp):
+                a = os.path.join(cwd, fp)
+                return a if (os.path.lexists(a) or not os.path.lexists(os.path.join(proj, fp))) else os.path.join(proj, fp)
+            got = sorted({os.path.relpath(_abs(v["file_path"]), target_abs) for v in vs})
             out["linted"] = got
             out["dups"] = len(vs) - len(got)
             out["exit"] = code
